@@ -1,6 +1,18 @@
 (* model driver for C04: outcome class of the modelled post-decryption logic *)
 open Common
 let nn s = n_of_int (int_of_string s)
+(* packets of every type from the wire-format universe (the generator of C05), as raw material for the
+   'every length field at its extremes' sweep *)
+let rnd_list (seed : int) (n : int) : BinNums.coq_N list =
+  let s = ref (seed * 0x9E3779B97F4A7C + 0x1234567) in
+  let next () =
+    s := !s + 0x1E3779B97F4A7C15;
+    let z = ref !s in
+    z := (!z lxor (!z lsr 30)) * 0xBF58476D1CE4E5B;
+    z := (!z lxor (!z lsr 27)) * 0x94D049BB133111E;
+    z := !z lxor (!z lsr 31);
+    (!z lsr 8) land 0xFFFFFFFF in
+  Stdlib.List.init n (fun _ -> n_of_int (next ()))
 let cls = function Res.Ok _ -> "ok" | Res.Err -> "err" | Res.Panic -> "PANIC"
 let handle = function
   | ["skv3"; d] -> cls (Checked.session_key_v3 (bytes_of_hex d))
@@ -9,5 +21,9 @@ let handle = function
   | ["kwlen"; n] -> cls (Checked.kw_out_len (nn n))
   | ["unpad"; d] -> cls (Checked.ecdh_unpad_checked (bytes_of_hex d))
   | ["aeadsetup"; sym; aead] -> cls (Checked.aead_setup (nn sym) (nn aead) (Stdlib.List.init 42 (fun _ -> byte_of_int 0)))
+  | ["gen"; tag; seed] ->
+    let f = Packets.body_fmt (nn tag) in
+    let (v, _) = Fmt.gen f (rnd_list (int_of_string seed) 4000) in
+    (match Wire.packet (nn tag) v with Some p -> hex_of_bytes p | None -> "NONE")
   | _ -> "MODEL-ERROR unknown op"
 let () = run handle
